@@ -176,6 +176,11 @@ def frame_jobs(bindir, prop, tier, seed, faults):
         jobs += shards(bindir, "frame_driver", prop + "-delegatefaults", seed, 4, base + ["--mode", "delegate-faults", "--cases", "400" if tier == QUICK else "6000"], 3000)
     # W3/W4: the buffered UDP / Unix sinks on real sockets, observed at the interposed sendto
     jobs += shards(bindir, "sock_driver", prop + "-sockets", seed, 4, ["--property", prop, "--mode", "buffered", "--cases", "800" if tier == QUICK else "5000"], 3000)
+    if not faults and prop in ("C19", "C06"):
+        # pauses of an hour between calls on Miri's virtual clock: nothing is written "after a while"
+        jobs.append(miri_time_job(prop, seed, 4 if tier == QUICK else 64, 1500 if tier == QUICK else 7200))
+        # ... and real pauses of 1.3 / 2.6 s (seven histories side by side)
+        jobs += shards(bindir, "frame_driver", prop + "-pauses", seed, 1 if tier == QUICK else 4, base + ["--mode", "pauses", "--rounds", "1" if tier == QUICK else "6"], 3000)
     if tier != QUICK and (faults or prop != "C06"):
         # (C06 builds its job list from two calls: the session is added once, by the fault-injected half)
         jobs.append(fuzz_job(prop, "fz_frame", "frame_driver", seed, 90, 8))
@@ -271,6 +276,9 @@ def q_jobs(bindir, prop, tier, seed, seq_enum=True, caps="unbounded,1,2,3", drop
         jobs += shards(bindir, "queue_conc", prop + "-droprace", seed, NCPU, base + ["--mode", "droprace", "--cases", "400" if quick else "30000"], 3400)
     if blocked:
         jobs += shards(bindir, "queue_conc", prop + "-blocked", seed, NCPU, base + ["--mode", "blocked", "--cases", "60" if quick else "4000"] + ([] if quick else ["--big"]), 3400)
+    if prop == "C09":
+        # a backlog behind a sink that takes ten (virtual) minutes per metric, hour-long idle periods: Miri's virtual clock
+        jobs.append(miri_time_job(prop, seed, 4 if quick else 64, 1500 if quick else 7200))
     # Miri: compact histories under a random preemptive scheduler, hooks off; virtual-time quiescence
     if miri:
         if quick:
@@ -407,6 +415,10 @@ def miri_job(name, prop, binname, prog_args, seeds, seed, timeout, extra_flags="
                     if key in line:
                         targets, cls = props, c
                         break
+            if binname != "miri_queue":
+                pm = re.search(r"property=(C\d\d)", line)
+                if pm:
+                    targets, cls = [pm.group(1)], "oracle-failed-under-miri-virtual-time"
             for t in targets:
                 viols.append({"property": t, "rule": "miri-history-oracle", "class": cls, "detail": "under Miri (random preemptive scheduler): " + line[:400], "replay_args": [], "trace": {"MIRIFLAGS": flags}})
         rep = {"evaluations": len(oks), "distinct": ["miri-%s-%s" % (binname, l.split(" ok ", 1)[-1]) for l in oks], "distinct_count": len(set(oks)), "trivial": 0,
@@ -454,6 +466,11 @@ def tsan_job(name, prop, binname, prog_args, timeout, runs=1):
     j.needs_tsan = True
     j.tsan_bin = binname
     return j
+
+
+def miri_time_job(prop, seed, seeds, timeout=1500):
+    """miri_time: histories with hour-long pauses on Miri's virtual clock (linger timers, idle flushes, grace periods)."""
+    return miri_job(prop + "-miri-time", prop, "miri_time", [], seeds, seed, timeout, fail_marker="TIME-ORACLE-FAILED")
 
 
 @plan("C18")
